@@ -896,7 +896,7 @@ func runC03EndNotOverridden(c *Ctx) {
 		found, _ := PathQuery{Target: func(in ssa.Instruction) bool { return in == m.Instr }, Avoid: isClear}.Search(merge, nil)
 		// (a path that reaches the Add again through the value loop after a clear is fine: the
 		// search from the entry finds any path that never passed a clear)
-		if found {
+		if found && !clearedByEarlierLoop(merge, m) {
 			replaced = false
 		}
 	}
